@@ -464,6 +464,7 @@ class TaggedNode(Node):
         self.layout: t.Any = lay if isinstance(lay, str) else tuple(lay)   # 'internal' | 'external' | ('adjacent', t, c)
         self.tag: str = spec[2]
         self.variants: t.List[ClsNode] = [ClsNode(('cls', cs)) for cs in spec[3]]
+        self.conds: t.Tuple[t.Any, ...] = tuple(spec[4]) if len(spec) > 4 and spec[4] else ()   # conditions written after Tagged(...)
         self.tagvals: t.List[t.Any] = []
         for vnode in self.variants:
             f = next(x for x in vnode.fields if x.name == self.tag)
@@ -482,13 +483,16 @@ class TaggedNode(Node):
 
     def render(self):
         ext = {'internal': 'False', 'external': 'True'}.get(self.layout) if isinstance(self.layout, str) else repr(tuple(self.layout[1:]))
-        return f"Annotated[Union[{', '.join(v.name for v in self.variants)}], Tagged({self.tag!r}, external={ext})]"
+        from .tg import cond_render
+        extra = ''.join(', ' + cond_render(c) for c in self.conds)
+        return f"Annotated[Union[{', '.join(v.name for v in self.variants)}], Tagged({self.tag!r}, external={ext}){extra}]"
 
     def build(self):
         from pane.annotations import Tagged
         ext: t.Any = False if self.layout == 'internal' else True if self.layout == 'external' else tuple(self.layout[1:])
         tys = tuple(v.pytype() for v in self.variants)
-        return t.Annotated[t.Union[tys], Tagged(self.tag, ext)]  # type: ignore
+        from .tg import _cond_build
+        return t.Annotated[(t.Union[tys], Tagged(self.tag, ext), *(_cond_build(c) for c in self.conds))]  # type: ignore
 
     def wrap(self, tagval: t.Any, body: t.Any) -> t.Any:
         if self.layout == 'internal':
